@@ -34,7 +34,7 @@ sys.path.insert(0, os.path.dirname(os.path.abspath(__file__)))
 import slices  # noqa: E402
 
 TIER_BUDGET = {  # per-harness CBMC timeout (s), per-process address space (KB)
-    "quick": (900, 14 * 1024 * 1024),
+    "quick": (900, 12 * 1024 * 1024),
     "thorough": (2700, 26 * 1024 * 1024),
 }
 
@@ -445,6 +445,9 @@ def native_replay(scratch, hf, harness, test_code, release):
     except subprocess.TimeoutExpired as e:
         out, rc = (e.stdout or "") + "\n[engine] replay timeout\n", 124
     ran = re.search(r"test result: (ok|FAILED)\. (\d+) passed; (\d+) failed", out)
+    if not ran and re.search(r"\(signal: \d+, SIG(SEGV|ABRT|BUS|ILL)", out) and ("Running " in out or "running 1 test" in out):
+        # the test binary was killed by a memory fault: the counterexample crashes the real code
+        return "reproduced", out
     if not ran or (int(ran.group(2)) + int(ran.group(3))) == 0:
         return "error", out
     return ("reproduced" if int(ran.group(3)) > 0 else "not-reproduced"), out
@@ -784,7 +787,7 @@ def main():
     ap.add_argument("--tier", default=os.environ.get("VERIF_TIER", "quick"), choices=["quick", "thorough"])
     ap.add_argument("--only", default="")
     ap.add_argument("--keep", action="store_true")
-    ap.add_argument("--jobs", type=int, default=int(os.environ.get("VERIF_JOBS", "8")))
+    ap.add_argument("--jobs", type=int, default=int(os.environ.get("VERIF_JOBS", "4")))
     ap.add_argument("--replay")
     ap.add_argument("--list", action="store_true")
     ap.add_argument("--selftest", action="store_true")
